@@ -20,6 +20,7 @@ import (
 	"github.com/lesismal/nbio/nbhttp"
 
 	"verif/harness/common"
+	"verif/harness/core"
 	"verif/harness/stream"
 	"verif/sim/kernel"
 	simrt "verif/sim/rt"
@@ -41,6 +42,33 @@ type ReqPlan struct {
 	Flush   bool   `json:"flush,omitempty"`    // handler flushes in the middle of the body
 	Yields  int    `json:"yields,omitempty"`
 	SplitCL bool   `json:"split_cl,omitempty"` // handler announces Content-Length, then writes a few bytes and the rest separately
+	// File: the body comes from a file (a real one, keyed content): "copyn" Content-Length +
+	// io.CopyN(w, f, n) (what http.ServeContent does: ReadFrom with an io.LimitedReader),
+	// "copy" Content-Length + io.Copy(w, f) to the end of the file (ReadFrom with the *os.File),
+	// "nolen" io.Copy(w, f) without an announced length.
+	File string `json:"file,omitempty"`
+}
+
+// fileBody is what a File response must carry: the last (copy, nolen) or the first (copyn)
+// n bytes of the keyed file.
+func fileBody(rp ReqPlan) (off int64, data []byte) {
+	if rp.File != "copyn" {
+		off = int64(core.TempFileSize - rp.Resp)
+	}
+	data = make([]byte, rp.Resp)
+	for i := range data {
+		data[i] = core.FileByte(off + int64(i))
+	}
+	return off, data
+}
+
+// respBody is the body the answer to request id must carry.
+func respBody(id string, rp ReqPlan) []byte {
+	if rp.File != "" {
+		_, data := fileBody(rp)
+		return data
+	}
+	return keyed(id+"/resp", rp.Resp)
 }
 
 // ClientPlan is one client connection.
@@ -132,6 +160,9 @@ func genHTTPServerCase(r *simrt.Rand, tier string) *HTTPCase {
 				cp.Piece = 7 // one TLS record per piece
 			}
 			rp.SplitCL = !rp.Flush && rp.Resp > 16 && r.Bool(0.25)
+			if !rp.Flush && !rp.SplitCL && rp.Resp > 0 && r.Bool(0.12) {
+				rp.File = r.PickS("copyn", "copy", "nolen")
+			}
 			cp.Reqs = append(cp.Reqs, rp)
 		}
 		// (not behind an exchange that closes the connection: writing into that close only
@@ -414,8 +445,26 @@ func runHTTPServer(t *testing.T, c *HTTPCase, trace bool) *common.Outcome {
 				simrt.Sleep(time.Duration(rp.SleepUs) * time.Microsecond)
 			}
 			w.Header().Set("X-Id", id)
-			data := keyed(id+"/resp", rp.Resp)
-			if rp.SplitCL && len(data) > 16 {
+			data := respBody(id, rp)
+			if rp.File != "" {
+				f, err := core.OpenTempFile()
+				if err != nil {
+					o.Infra = "temp file: " + err.Error()
+					simrt.Finish()
+				}
+				off, _ := fileBody(rp)
+				f.Seek(off, 0)
+				if rp.File != "nolen" {
+					w.Header().Set("Content-Length", fmt.Sprint(rp.Resp))
+				}
+				if rp.File == "copyn" {
+					io.CopyN(w, f, int64(rp.Resp))
+				} else {
+					io.Copy(w, f)
+				}
+				f.Close()
+				o.Probe("response_body_from_file_" + rp.File)
+			} else if rp.SplitCL && len(data) > 16 {
 				w.Header().Set("Content-Length", fmt.Sprint(len(data)))
 				w.Write(data[:10])
 				for y := 0; y < rp.Yields; y++ {
@@ -571,7 +620,7 @@ func runHTTPServer(t *testing.T, c *HTTPCase, trace bool) *common.Outcome {
 					}
 					return
 				}
-				if !bytes.Equal(body, keyed(id+"/resp", rp.Resp)) {
+				if !bytes.Equal(body, respBody(id, rp)) {
 					fail("response-body-differs", class, "connection %d: body of the answer to %s differs (%d bytes, expected %d)", i, id, len(body), rp.Resp)
 					return
 				}
